@@ -486,7 +486,8 @@ theorem hookVis_note {song : Song} {d : DataInfo} {n : Nat} {c : Conv} {w : WSta
       | .ok (c, param) =>
         let param := if param < 0 then 0 else param
         if w.inDrum then
-          if param > 255 then .error .noteRange
+          if it.topLoop then .error .drumNoteInLoop
+          else if param > 255 then .error .noteRange
           else .ok (c, { (Mds.push w mds_DMFINISH param) with disabled := true })
         else if param ≥ (mds_SLR - mds_NOTE : Nat) then .error .noteRange
         else .ok (c, Mds.push w (mds_NOTE + param.toNat) it.on) := by
